@@ -132,7 +132,8 @@ def run_shard(shard: dict, ctx, res, only=None) -> None:
     dm_pos = 2.0 if foff < 0 else -2.0  # sign chosen so that all delays are >= 0 for either band direction
 
     def guard(api, params, fn):
-        if only is not None and [api, params] != only:
+        # replay: re-run every cell of the same API in this shard (cells are cheap; their parameters are reported by the check itself)
+        if only is not None and api != only[0]:
             return
         try:
             fn()
